@@ -5,29 +5,52 @@ ID = "C01"
 LEAN_MODULES = ["Gv.Props.C01"]
 REQUIRED_THEOREMS = ["Gv.Props.C01." + n for n in [
     "step_inv", "run_inv", "inv_of_empty_bag", "inv_of_empty_align", "lookup_paths_agree", "idByName_spec",
-    "byName_found_iff", "add_wrong_length_rejected", "add_wrong_length_error_of_new_name"]]
-LEVEL_TEXT = ("Lean theorems: the implementation-shaped container model (ordered rows with pointer ids + separate name index, "
-              "cached alignment length) keeps its representation invariant under every modelled operation and, for histories "
-              "that keep names distinct, refines the plain list-of-(name,sequence) reference model, by induction over "
-              "operation histories of any length; tied to /repo by a differential correspondence on random histories that "
-              "compares the full observation vector (iteration, by-index, by-name through the index and by linear scan, "
+    "byName_found_iff", "add_wrong_length_rejected", "add_wrong_length_error_of_new_name",
+    # rectangularity for all histories (+ the kernel-checked counterexample of the excluded case)
+    "step_rect", "run_rect", "rect_of_empty_align", "rows_have_reported_length", "translate_three_frames_not_rect",
+    "three_frames_same_count_iff",
+    # names stay pairwise distinct unless the caller edits names
+    "step_names_nodup", "run_names_nodup",
+    # refinement: Go-shaped container = plain list reference model, all 24 operations, all histories
+    "step_refines", "run_refines", "good_of_empty_bag", "good_of_empty_align", "obs_byName", "obs_idByName", "obs_length"]]
+LEVEL_TEXT = ("Lean theorems, all by induction over operation histories of any length and for arbitrary arguments: "
+              "(1) refinement `step_refines` / `run_refines`: for each of the 24 operations of the history language (add under the "
+              "three duplicate-name policies, ignore, clear, append, concat, rename, appendId, cleanNames, trimNames, trimAuto, sort, "
+              "permute=ShuffleSequences, filter, dedup, rmSeqs/RemoveGapSeqs, translate, clone, sample, toUpper, toLower, replace, "
+              "setChar, trimSeqs, autoAlpha), whenever the plain list-of-(name,sequence) reference model specifies the outcome, the "
+              "implementation-shaped model (ordered rows with pointer ids + separate name index + allocation counter + cached "
+              "alignment length) yields exactly that content (names, row order, residues, policy, alphabet, kind) and that status, and "
+              "the strong invariant (index exact and pointing to the first row of each name, rectangular, alphabet never BOTH) holds "
+              "again; `obs_byName`/`obs_idByName`/`obs_length` show every observation of the harness is a function of the abstraction; "
+              "(2) rectangularity `step_rect` / `run_rect` / `rows_have_reported_length`: the cached length equals the length of every "
+              "row and is -1 iff there is no row, after every operation whatever its outcome, except the excluded cases (three-frame "
+              "Translate of an alignment with L mod 3 != 2 - `translate_three_frames_not_rect` is the kernel-checked violation - and a "
+              "Replace/Concat that itself returned an error); (3) `step_names_nodup` / `run_names_nodup`: names stay pairwise distinct "
+              "under every operation other than the caller's own name edits; (4) the weak representation invariant for all operations "
+              "including name collisions made by the caller (`step_inv`/`run_inv`), agreement of the by-name access paths, rejection "
+              "of a wrong-length sequence with the state unchanged. Tied to /repo by a differential correspondence on random histories "
+              "that compares the full observation vector (iteration, by-index, by-name through the index and by linear scan, "
               "Sequences()) after every step.")
 LEVEL_NOTE = ("Trusted: Lean kernel; harness/oracle/driver; the hand-written model of seqbag.go/align.go is validated against the "
               "implementation on generated histories only; regexp (CleanNames is modelled directly), fmt, sort.SliceStable, math/rand "
               "(replica) are external.")
-TECHNIQUE = "Lean 4 proof (representation invariant + refinement by induction over histories) + differential correspondence"
+TECHNIQUE = "Lean 4 proof (refinement of the Go-shaped container to a plain-list reference model for all 24 operations, representation / rectangularity / distinct-names invariants, all by induction over histories) + differential correspondence"
 RULE = ("random histories of 1..12 (quick) / 1..40 (thorough) operations over alignments (0..5 rows x 0..8 columns) and "
         "sequence sets with ragged lengths, duplicate names, special characters in names, all three duplicate-name policies, "
         "boundary arguments; the full observation vector is compared after every operation; non-trivial = at least two "
         "state-changing operations")
-PARTIAL = ["refinement theorem `abs (step s op) = Spec.step (abs s) op` (model = plain-list reference) is not yet proved in Lean: "
-           "the reference model is evaluated by the oracle on every generated history instead (verdict of the property predicate); "
-           "proved so far: the representation invariant for all histories and the agreement of the access paths",
-           "rectangularity invariant (cached length = every row's length) is checked by the oracle on the implementation's "
-           "observations after every step, not yet a Lean theorem",
-           "ShuffleSequences / Sample are modelled with their permutation supplied (Op.permute / Op.sample); in the correspondence "
-           "the oracle resolves it with the Go math/rand replica of C10 (that the replica's shuffle is a permutation for every seed "
-           "is C10.shuffle_every_seed)"]
+PARTIAL = ["the refinement theorem claims the outcome of a step only where the reference model specifies it (`Spec.stepOp` returns "
+           "`some`); by design it returns `none` - and nothing is claimed, the history theorem `run_refines` stops there - for: a "
+           "rebuild by re-insertion (filter, dedup, rmSeqs, translate, clone, sample, concat) or a shuffle applied after the caller "
+           "made two rows share a name; an append/replace/trimNames/translate that reported an error; a three-frame translation whose "
+           "output names collide or, for an alignment, whose frames differ in length (known finding). The weak invariant (`run_inv`), "
+           "rectangularity (`run_rect`) and the access-path theorems hold on those histories too",
+           "ShuffleSequences / Sample are modelled with their permutation supplied (Op.permute / Op.sample; the theorems assume it is a "
+           "genuine permutation of the positions, `OpWF`/`OpWFR`); in the correspondence the oracle resolves it with the Go math/rand "
+           "replica of C10 (that the replica's shuffle is a permutation for every seed is C10.shuffle_every_seed)",
+           "the history language (Lean `Op`, oracle decoder, generator) has 24 operations; RenameRegexp, the site removals, Compress, "
+           "Unalign, ReplaceChar and ReverseComplement listed in DESIGN section 5 for C01 are not among them (the harness has entry "
+           "points for them, the Lean model and the theorems do not cover them)"]
 
 NAMES = ["a", "b", "c", "d", "Seq0000", "Seq0001", "a_0001", "x y", " lead", "n(1)", "p:q", "k,l", "t;u", "e.f", "long_name_here", "A"]
 NT = "ACGTacgtNn-RYK*?."
